@@ -243,7 +243,7 @@ func TestVerifC17App(t *testing.T) {
 	golog.SetOutput(writerFunc(func(p []byte) (int, error) { globMu.Lock(); defer globMu.Unlock(); return glob.Write(p) }))
 	st, cov := vc17.Station(), vc17.Covert()
 	clients := vc17.Clients()
-	all := [][]string{vc17.Needles(st.TCP.IP), vc17.Needles(cov.TCP.IP)}
+	var all [][]string // client addresses first: they are what the property is about
 	var union []string
 	var addrs []*vc17.Addr
 	for _, cl := range clients {
@@ -251,6 +251,7 @@ func TestVerifC17App(t *testing.T) {
 		union = append(union, cl.Needles...)
 		addrs = append(addrs, cl.Addr)
 	}
+	all = append(all, vc17.Needles(st.TCP.IP), vc17.Needles(cov.TCP.IP))
 	addrs = append(addrs, st, cov)
 
 	// ---- (A) generalizeErr of conns.go
